@@ -55,6 +55,8 @@ type Obs struct {
 	// Lookup: instance id -> what App.GetComponentByName returned after Run.
 	Lookup map[string]LookupObs `json:"lookup,omitempty"`
 	// LoggerSet: instance id -> its logger-tagged field was set by the container.
+	// SleptS: seconds of simulated time the scheduler let pass while tasks were parked (Close phase).
+	SleptS    int             `json:"sleptS,omitempty"`
 	LoggerSet map[string]bool `json:"loggerSet,omitempty"`
 	// LoggerPref: per instance with two logger fields, the prefix of the logger in `Log` (tag
 	// value empty) and in `Log2` (explicit prefix).
